@@ -56,7 +56,7 @@ def run(oc, tier, seed, model_available, escalate):
         man = cu.manager(algo, n, k0)
         kw = {"k": k} if percall else {}
         karg = k if percall else 0
-        with common.captured():
+        with common.quiet():
             par = bytes(man.encode(msg, **kw))
         word = bytearray(msg + par)
         nsym = n - k
@@ -94,7 +94,7 @@ def run(oc, tier, seed, model_available, escalate):
         m2, p2 = bytes(rx[:len(msg)]), bytes(rx[len(msg):])
         with cu.Recorder() as rec:
             try:
-                with common.captured():
+                with common.quiet():
                     res = man.decode(m2, p2, **kw, **dkw)
                 out = "ok %s %s" % (hx(bytes(res[0])), hx(bytes(res[1])))
             except Exception as ex:
@@ -164,13 +164,13 @@ def replay_finding(f):
     w = f["witness"]
     man = cu.manager(w["algo"], w["n"], w["k"])
     msg = bytes.fromhex(w["msg"])
-    with common.captured():
+    with common.quiet():
         par = bytes(man.encode(msg))
     rx = bytearray(msg + par)
     for p, v in w["set"]:
         rx[p] = v
     try:
-        with common.captured():
+        with common.quiet():
             res = man.decode(bytes(rx[:len(msg)]), bytes(rx[len(msg):]), enable_erasures=True, erasures_char=0)
         return None if (bytes(res[0]), bytes(res[1])) == (msg, par) else "wrong result"
     except Exception as e:
@@ -190,10 +190,10 @@ def replay(payload):
     kw = {"k": inp["k_call"]} if inp.get("k_call") else {}
     dkw = {} if inp["mode"] == "errors" else {"enable_erasures": True, "erasures_char": inp["erasure_symbol"], "only_erasures": inp["mode"] == "only_erasures"}
     msg = bytes.fromhex(inp["msg"])
-    with common.captured():
+    with common.quiet():
         par = bytes(man.encode(msg, **kw))
     try:
-        with common.captured():
+        with common.quiet():
             res = man.decode(bytes.fromhex(inp["received_msg"]), bytes.fromhex(inp["received_ecc"]), **kw, **dkw)
         ok = (bytes(res[0]), bytes(res[1])) == (msg, par)
         common.say("decode ->", bytes(res[0]).hex(), bytes(res[1]).hex(), "expected", msg.hex(), par.hex())
